@@ -68,7 +68,7 @@ def parse_harnesses(spec_path):
     out = []
     for m in HARNESS_RE.finditer(txt):
         h = {'name': m.group(1), 'enforce': None, 'replace': [], 'unwind': None, 'props': [], 'when': None, 'timeout': None,
-             'loopcontracts': False, 'flags': [], 'pre_unwind': None, 'plain': None, 'unwindset': None, 'expect': None, 'level': None, 'mem': None, 'bounded': None, 'objbits': None}
+             'loopcontracts': False, 'flags': [], 'pre_unwind': None, 'plain': None, 'solver': None, 'tier': None, 'unwindset': None, 'expect': None, 'level': None, 'mem': None, 'bounded': None, 'objbits': None}
         for kv in m.group(2).split():
             if '=' not in kv:
                 continue
@@ -216,7 +216,13 @@ def run_harness(unit, variant, h, tier='quick', keep=False):
         return r
     if 'no body for' in so + se and False:
         pass
-    cb = ['cbmc', gb2] + CBMC_CHECKS + ['--json-ui', '--trace']
+    checks = list(CBMC_CHECKS)
+    if h.get('solver') in ('cvc5-fpa', 'z3-fpa'):
+        # SMT back end with the floating-point theory (term sharing makes "same computation" equalities trivial)
+        i = checks.index('--sat-solver')
+        del checks[i:i + 2]
+        checks += ['--' + h['solver'].split('-')[0], '--fpa']
+    cb = ['cbmc', gb2] + checks + ['--json-ui', '--trace']
     if h['unwind']:
         cb += ['--unwind', str(eval_int(h['unwind'], env))]
     if h['unwindset']:
@@ -271,6 +277,11 @@ def run_harness(unit, variant, h, tier='quick', keep=False):
     r['obligations'] = obs
     r['failed'] = failed
     r['n_loop_inv'] = sum(1 for o in obs if 'loop_invariant' in (o['name'] or '') or 'loop invariant' in (o['desc'] or ''))
+    unw = [o for o in failed if '.unwind.' in (o['name'] or '') or 'unwinding assertion' in (o['desc'] or '')]
+    if unw and not h.get('unwind_is_property'):
+        # a loop needs more iterations than the harness allows: the bound is too small, nothing is decided
+        r.update(status='infra', reason='unwinding assertion failed (%s at %s:%s): unwind bound too small for this harness' % (unw[0]['name'], unw[0]['file'], unw[0]['line']))
+        return r
     vac = [o for o in canaries if o['status'] == 'SUCCESS']
     if vac and not failed:
         r.update(status='infra', reason='vacuous harness: the canary assertion after the call is unreachable (contradictory preconditions?)')
